@@ -321,7 +321,7 @@ def triangle_collapse(prog, rep):
     """R02.7 the thick-stroke triangle is treated as completely filled (its box is then the plain triangle's) as soon as
     ONE corner closes the hole: is_collapsed is an existential test over the joins of all three corners, each corner
     tested against the edge opposite to it.  (Path summaries with the search walked once: for / any / position alike.)"""
-    from mirq.paths import Paths, Unsupported, CONTINUES
+    from mirq.paths import Paths, Unsupported, CONTINUES, is_continues
     TRI = "embedded_graphics::primitives::triangle::Triangle"
     ic = prog.method1(TRI, "is_collapsed", None)
     jn = prog.method1(TRI, "joins", None)
@@ -374,7 +374,7 @@ def triangle_collapse(prog, rep):
                 bad.append("a corner that closes the hole must make the triangle collapsed at once (returns %s)" % show(sm.ret, maxd=3))
         else:
             seen.add("open")
-            if sm.ret != CONTINUES and sm.ret is not None:
+            if not is_continues(sm.ret) and sm.ret is not None:
                 bad.append("a corner that leaves the hole open must not decide the result (returns %s)" % show(sm.ret, maxd=3))
         for fct in side:
             # the opposite edge of corner i: vertices (i+1)%3 .. (i+2)%3
